@@ -10,6 +10,7 @@ pub type Cost = isize;
 mod cont;
 mod dd;
 mod fam;
+mod knap;
 #[cfg(feature = "sched")]
 mod par;
 mod solve;
@@ -291,6 +292,39 @@ fn main() {
     match a.get("kind", "dd").as_str() {
         "dd" => run_dd(&a, &limits, symbolic, &initial),
         "solve" => run_solve(&a, &limits, symbolic, &initial),
+        "knap" => {
+            for ddname in a.list("dd", "lel").iter() {
+                for cache in a.list("cache", "0").iter() {
+                    for dom in a.list("dom", "full").iter() {
+                        for w in a.list("width", "2").iter() {
+                            let c = knap::KnapCase { n: a.num("n", 4) as usize, seed: a.num("seed", 1), nsym: a.num("nsym", 4) as usize, cache: cache == "1", nodup: a.get("fringe", "simple") == "nodup", width: w.parse().unwrap(), dom: dom.clone(), props: a.list("props", "C10") };
+                            macro_rules! go {
+                                ($d:ty) => {
+                                    if c.cache {
+                                        explore(&limits, c.seed, symbolic, &initial, &mut || knap::body::<$d, SimpleCache<knap::KState>>(&c))
+                                    } else {
+                                        explore(&limits, c.seed, symbolic, &initial, &mut || knap::body::<$d, EmptyCache<knap::KState>>(&c))
+                                    }
+                                };
+                            }
+                            let rep = match ddname.as_str() {
+                                "lel" => go!(Mdd<knap::KState, { LAST_EXACT_LAYER }>),
+                                "frontier" => go!(Mdd<knap::KState, { FRONTIER }>),
+                                "pooled" => go!(Pooled<knap::KState>),
+                                x => panic!("dd={}", x),
+                            };
+                            let mut case = a.0.clone();
+                            case.insert("dd".into(), ddname.clone());
+                            case.insert("cache".into(), cache.clone());
+                            case.insert("dom".into(), dom.clone());
+                            case.insert("width".into(), w.clone());
+                            case.remove("inputs");
+                            emit(&case, "knapsack", &rep);
+                        }
+                    }
+                }
+            }
+        }
         "fringe" | "cache" | "dominance" | "cacheconc" | "domconc" => run_cont(&a, &limits, symbolic, &initial),
         #[cfg(feature = "sched")]
         "par" => run_par(&a, &limits, symbolic, &initial),
